@@ -13,7 +13,8 @@ Theorem C13_barrier_between_flat :
 Proof. exact barrier_between_flat. Qed.
 Print Assumptions C13_barrier_between_flat.
 
-(* PARTIAL (class SameLevel: x .. u is a straight-line segment of one block; values shared as SSA
+(* PARTIAL (class SameLevel: x .. u is a straight-line segment of one block — direct children of the
+   block or ops inside the body of a linalg.generic / streaming region; values shared as SSA
    values, not through views).  Full statement: for every pair of ops on different cores that
    produce/consume the same buffer, every execution path between them contains a barrier.
    Proved: the output holds, between x and u, a straight-line segment of that block containing a
@@ -21,10 +22,10 @@ Print Assumptions C13_barrier_between_flat.
 Theorem C13_barrier_between_ssa_deps_partial :
   forall flat l1 x l2 u l3,
   flat = l1 ++ x :: l2 ++ u :: l3 -> must_sync x u = true ->
-  same_block_segment (oi_parent x) (l2 ++ [u]) = true ->
+  seg_ok flat (oi_parent x) (l2 ++ [u]) = true ->
   let seg := out_between (barriers flat) l2 u in
   (exists pre post, run_pass flat = pre ++ x :: seg ++ u :: post) /\
-  same_block_segment (oi_parent x) seg = true /\
+  (forall z, In z seg -> In z l2 \/ is_sync z = true) /\
   (exists s, In s seg /\ is_sync s = true /\ oi_parent s = oi_parent x).
 Proof. exact barrier_between_ssa_deps_partial. Qed.
 Print Assumptions C13_barrier_between_ssa_deps_partial.
@@ -35,10 +36,10 @@ Print Assumptions C13_barrier_between_ssa_deps_partial.
 Theorem C13_barrier_on_backedge_partial :
   forall flat l1 x l2 yld l3 u,
   flat = l1 ++ x :: l2 ++ yld :: l3 -> In u flat -> must_sync x u = true -> same_parent_for x u = true ->
-  oi_id yld = oi_pyield x -> same_block_segment (oi_parent x) (l2 ++ [yld]) = true ->
+  oi_id yld = oi_pyield x -> seg_ok flat (oi_parent x) (l2 ++ [yld]) = true ->
   let seg := out_between (barriers flat) l2 yld in
   (exists pre post, run_pass flat = pre ++ x :: seg ++ yld :: post) /\
-  same_block_segment (oi_parent x) seg = true /\
+  (forall z, In z seg -> In z l2 \/ is_sync z = true) /\
   (exists s, In s seg /\ is_sync s = true /\ oi_parent s = oi_parent x).
 Proof. exact barrier_on_backedge_partial. Qed.
 Print Assumptions C13_barrier_on_backedge_partial.
@@ -46,7 +47,7 @@ Print Assumptions C13_barrier_on_backedge_partial.
 Theorem C13_barrier_before_dealloc_partial :
   forall flat l1 x l2 d l3,
   flat = l1 ++ x :: l2 ++ d :: l3 -> is_dealloc d = true -> shares x d = true ->
-  same_block_segment (oi_parent x) (l2 ++ [d]) = true ->
+  seg_ok flat (oi_parent x) (l2 ++ [d]) = true ->
   exists s, In s (out_between (barriers flat) l2 d) /\ is_sync s = true /\ oi_parent s = oi_parent x.
 Proof. exact barrier_before_dealloc_partial. Qed.
 Print Assumptions C13_barrier_before_dealloc_partial.
@@ -109,3 +110,25 @@ Example C13_same_level_nonvacuous :
   barriers probe_loop = [6; 5; 4] /\ classify_pair probe_loop 3 4 = 0.
 Proof. exact same_level_nonvacuous. Qed.
 Print Assumptions C13_same_level_nonvacuous.
+
+(* the barrier-synchronised machine itself: on balanced per-core streams whose ops of different
+   cores never conflict inside a phase, EVERY maximal execution (any interleaving, barriers passed
+   together) terminates, and in the memory of the canonical order — no deadlock, no observable race *)
+From Snax Require Import Proofs.MultiCoreMachine.
+Theorem C13_machine_result :
+  forall ss m fuel, balanced ss ->
+  (forall s, In s ss -> (nbarriers s < fuel)%nat) -> xfree_all fuel ss = true ->
+  forall cfg, steps (ss, m) cfg ->
+    (all_finished (fst cfg) = true /\ meq (snd cfg) (exec (seq_order fuel ss) m)) \/ (exists cfg', step cfg cfg').
+Proof. exact machine_result. Qed.
+Print Assumptions C13_machine_result.
+
+Example C13_machine_nonvacuous :
+  let ss := [[Some (mkOp [1] 0 [1] [2]); None; Some (mkOp [2] 0 [3] [4])];
+             [Some (mkOp [3] 1 [5] [3]); None; Some (mkOp [4] 1 [2] [6])]] in
+  balanced ss /\ xfree_all 2 ss = true /\ length (seq_order 2 ss) = 4%nat.
+Proof.
+  cbv zeta. split; [|split; reflexivity].
+  intros s s' [<-|[<-|[]]] [<-|[<-|[]]]; reflexivity.
+Qed.
+Print Assumptions C13_machine_nonvacuous.
